@@ -552,6 +552,7 @@ def dec_response(l):
 
 # ---------------------------------------------------------------- reference evaluator
 UNKNOWN = "unknown"
+NULL = "null"          # no truth value (SQL's unknown): an ordering comparison with an unavailable operand
 import collections
 STATS = collections.Counter()
 
@@ -689,7 +690,12 @@ def is_float(v):
 def compare(op, va, vb):
     """exact SQL comparison of two scalar values -> True / False / UNKNOWN (not judged)"""
     if va[0] == E.NA or vb[0] == E.NA:
-        return UNKNOWN
+        # an unavailable operand: the broker documents `NotAvailable = number` as false (so `<>` as true);
+        # every other comparison with it has no truth value
+        other = vb if va[0] == E.NA else va
+        if other[0] in (E.I32, E.I64, E.U32, E.U64, E.F32, E.F64) and op in ("=", "<>"):
+            return op == "<>"
+        return NULL
     if va[0] in (E.BOOL, E.STR) or vb[0] in (E.BOOL, E.STR):
         if va[0] != vb[0]:
             return UNKNOWN
@@ -738,6 +744,94 @@ def compare(op, va, vb):
     return UNKNOWN
 
 
+def k_and(a, b):
+    """Kleene conjunction over True / False / NULL, with UNKNOWN = not judged"""
+    if a is False or b is False:
+        return False
+    if UNKNOWN in (a, b):
+        return UNKNOWN
+    if NULL in (a, b):
+        return NULL
+    return True
+
+
+def k_not(a):
+    return a if a in (UNKNOWN, NULL) else (not a)
+
+
+def truth(n, cur, prev):
+    """typed condition -> True / False / NULL / UNKNOWN"""
+    k = n[0]
+    if k in ("sig", "lit"):
+        v = evaluate(n, cur, prev)
+        if v == UNKNOWN:
+            return UNKNOWN
+        if v[0] == E.NA:
+            return NULL
+        return v[1] if v[0] == E.BOOL else UNKNOWN
+    if k == "cmp":
+        a, b = evaluate(n[2], cur, prev), evaluate(n[3], cur, prev)
+        if UNKNOWN in (a, b):
+            return UNKNOWN
+        return compare(n[1], a, b)
+    if k == "and":
+        return k_and(truth(n[1], cur, prev), truth(n[2], cur, prev))
+    if k == "or":
+        return k_not(k_and(k_not(truth(n[1], cur, prev)), k_not(truth(n[2], cur, prev))))
+    if k == "not":
+        return k_not(truth(n[1], cur, prev))
+    if k == "between":
+        a, lo, hi = (evaluate(x, cur, prev) for x in (n[1], n[3], n[4]))
+        if UNKNOWN in (a, lo, hi):
+            return UNKNOWN
+        r = k_and(compare(">=", a, lo), compare("<=", a, hi))
+        return k_not(r) if n[2] else r
+    return UNKNOWN
+
+
+def has_null(n, cur, prev):
+    """does the condition contain a part without a truth value (the broker then reports nothing at all)"""
+    k = n[0]
+    if k == "cmp":
+        a, b = evaluate(n[2], cur, prev), evaluate(n[3], cur, prev)
+        return UNKNOWN not in (a, b) and compare(n[1], a, b) == NULL
+    if k == "between":
+        a, lo, hi = (evaluate(x, cur, prev) for x in (n[1], n[3], n[4]))
+        return UNKNOWN not in (a, lo, hi) and NULL in (compare(">=", a, lo), compare("<=", a, hi))
+    if k in ("and", "or"):
+        return has_null(n[1], cur, prev) or has_null(n[2], cur, prev)
+    if k == "not":
+        return has_null(n[1], cur, prev)
+    if k in ("sig", "lit"):
+        v = evaluate(n, cur, prev)
+        return v != UNKNOWN and v[0] == E.NA
+    return False
+
+
+def clean(n, cur, prev):
+    """every comparison in the expression is decided (no part without truth value, none unjudged): only
+    then does the broker evaluate it without an execution error"""
+    k = n[0]
+    if k in ("sig", "lit"):
+        return evaluate(n, cur, prev) != UNKNOWN
+    if k == "cmp":
+        if not all(clean(x, cur, prev) for x in (n[2], n[3])):
+            return False
+        a, b = evaluate(n[2], cur, prev), evaluate(n[3], cur, prev)
+        return UNKNOWN not in (a, b) and compare(n[1], a, b) in (True, False)
+    if k == "between":
+        if not all(clean(x, cur, prev) for x in (n[1], n[3], n[4])):
+            return False
+        a, lo, hi = (evaluate(x, cur, prev) for x in (n[1], n[3], n[4]))
+        return UNKNOWN not in (a, lo, hi) and compare(">=", a, lo) in (True, False) and compare("<=", a, hi) in (True, False)
+    if k in ("and", "or"):
+        return clean(n[1], cur, prev) and clean(n[2], cur, prev) and \
+            truth(n[1], cur, prev) in (True, False) and truth(n[2], cur, prev) in (True, False)
+    if k == "not":
+        return clean(n[1], cur, prev) and truth(n[1], cur, prev) in (True, False)
+    return False
+
+
 def evaluate(n, cur, prev):
     """typed tree -> value (kind, payload) of the node; UNKNOWN if not judged.
     cur(path) -> visible current value or UNKNOWN; prev(path) -> previous value or UNKNOWN"""
@@ -746,32 +840,10 @@ def evaluate(n, cur, prev):
         return prev(n[2]) if n[3] else cur(n[2])
     if k == "lit":
         return n[2]
-    if k == "cmp":
-        a, b = evaluate(n[2], cur, prev), evaluate(n[3], cur, prev)
-        if UNKNOWN in (a, b):
-            return UNKNOWN
-        r = compare(n[1], a, b)
-        return UNKNOWN if r == UNKNOWN else (E.BOOL, r)
-    if k in ("and", "or"):
-        a, b = evaluate(n[1], cur, prev), evaluate(n[2], cur, prev)
-        if UNKNOWN in (a, b) or a[0] != E.BOOL or b[0] != E.BOOL:
-            return UNKNOWN            # (an execution error suppresses the response whatever the other side says)
-        return (E.BOOL, (a[1] and b[1]) if k == "and" else (a[1] or b[1]))
-    if k == "not":
-        a = evaluate(n[1], cur, prev)
-        if a == UNKNOWN or a[0] != E.BOOL:
-            return UNKNOWN
-        return (E.BOOL, not a[1])
-    if k == "between":
-        a, lo, hi = (evaluate(x, cur, prev) for x in (n[1], n[3], n[4]))
-        if UNKNOWN in (a, lo, hi):
-            return UNKNOWN
-        c1, c2 = compare(">=", a, lo), compare("<=", a, hi)
-        if UNKNOWN in (c1, c2):
-            return UNKNOWN
-        r = c1 and c2
-        return (E.BOOL, (not r) if n[2] else r)
-    return UNKNOWN
+    t = truth(n, cur, prev)
+    if t in (UNKNOWN, NULL):
+        return UNKNOWN
+    return (E.BOOL, t)
 
 
 def signals_of(n):
@@ -1003,16 +1075,23 @@ def judge(s, got, change, store, before, P, ticked, initial=False):
             fails.append("C12-trigger: subscription %d (%s) got a response although none of its signals changed" % (
                 s["h"], s["sql"]))
         return fails
-    w = (E.BOOL, True) if tw is None else evaluate(tw, cur, prev)
-    STATS["rounds judged: condition " + ("not judged (tolerance band / NaN-inf / NotAvailable / LAG of an "
-                                          "unchanged signal / declined comparison)" if w == UNKNOWN
-                                          else "true" if w[1] else "false")] += 1
+    w = True if tw is None else truth(tw, cur, prev)
+    STATS["rounds judged: condition " + ("not judged (tolerance band / NaN-inf / LAG of an unchanged signal / "
+                                          "declined comparison)" if w == UNKNOWN
+                                          else "without truth value (unavailable operand)" if w == NULL
+                                          else "true" if w else "false")] += 1
     if w == UNKNOWN:
         return fails
-    if not w[1]:
+    if w is not True:
         if got:
-            fails.append("C12-where: subscription %d (%s) got a response although its condition is false" % (
-                s["h"], s["sql"]))
+            fails.append("C12-where: subscription %d (%s) got a response although its condition %s" % (
+                s["h"], s["sql"], "is false" if w is False else "has no truth value (an ordering comparison with "
+                                                               "an unavailable operand)"))
+        return fails
+    if (tw is not None and not clean(tw, cur, prev)) or \
+            any(t[0] not in ("sig", "lit") and not clean(t, cur, prev) for (_n, t) in tp):
+        # true in three-valued logic although a part has no truth value or is not judged (NULL OR TRUE):
+        # the broker reports nothing in that case; the "must report" direction is not judged
         return fails
     vals = [(n, evaluate(t, cur, prev)) for (n, t) in tp]
     if any(v == UNKNOWN for (_n, v) in vals):
